@@ -218,7 +218,9 @@ def run(repo: Repo, rep: Report, tier: str) -> None:
         fn = sr.classes["OpenAPISchemaResolver"].methods.get(mname)
         if fn is None:
             raise AnalysisError(f"anchor vanished: {mname}")
-        txt = full(fn.node)
+        from sa.flatten import flatten as _fl14
+
+        fn = _fl14(fn)  # oneOf / anyOf may share one implementation (`return self._resolve_union_of(schema.one_of, ...)`)
         FL = Locals(fn.node)
         loops = [n for n in own_nodes(fn.node) if isinstance(n, ast.For)]
         spec_loops = [l for l in loops if isinstance(FL.inline(l.iter), ast.Attribute) and FL.inline(l.iter).attr in ("one_of", "any_of")]
